@@ -1,7 +1,7 @@
-(* C13 — property theorems (fourth wave: state round trip of a trait definition, on_trait_change
+(* C13 — property theorems (fourth and fifth wave; fourth: state round trip of a trait definition, on_trait_change
    listeners attached and detached, access through a delegating attribute); same conventions as Props.v. *)
 From Coq Require Import ZArith List Bool Lia.
-From TV Require Import Common.Harness C13.Model C13.Law C13.Corr C13.CorrN C13.Proofs C13.MapProofs C13.Wave4.
+From TV Require Import Common.Harness C13.Model C13.Law C13.Corr C13.CorrN C13.CorrT C13.Proofs C13.MapProofs C13.ClassOpProofs C13.Wave4 C13.Wave5.
 Import ListNotations.
 Open Scope Z_scope.
 
@@ -126,3 +126,80 @@ Example listen_history_nontrivial :
   [Done; Done; Done; Done; Raise TraitError; Val 1; Done; Val 7; Done; Done; Raise TraitError; Val 1; Val 7; Done;
    Raise TraitError; Done; Val 1; Val 0; Val 1; Raise TraitError].
 Proof. vm_compute. split; reflexivity. Qed.
+
+(* ================================================================== *)
+(* Fifth wave. *)
+
+(* ---- C13-v1: the ABC variants of the root classes are classes like any other: ABCHasTraits declares
+   nothing over HasTraits, ABCHasStrictTraits declares _ = Disallow over it; their rule is the rule
+   of HasTraits / HasStrictTraits for every name (so strict_class_default_is_disallow applies) ---- *)
+Theorem abc_strict_class_is_governed_like_the_strict_class :
+  forall n, spec_rule abc_classes 4 n = spec_rule [] 1 n.
+Proof. exact abc_strict_rule. Qed.
+Print Assumptions abc_strict_class_is_governed_like_the_strict_class.
+
+Theorem abc_plain_class_is_governed_like_the_plain_class :
+  forall n, spec_rule abc_classes 3 n = spec_rule [] 0 n.
+Proof. exact abc_plain_rule. Qed.
+Print Assumptions abc_plain_class_is_governed_like_the_plain_class.
+
+(* a subclass of ABCHasStrictTraits: an undeclared (misspelled) name is refused, a declared one typed *)
+Example abc_strict_subclass_nontrivial :
+  let h := abc_classes ++ [mkClass [([97; 98], PTyped VInt 7)] [4%nat]] in
+  let t := class_tables h 5 in
+  let ops := [OSet [98; 97] 101; OGet [98; 97]; OSet [97; 98] 5; OGet [97; 98]; OSet [97; 98] 101; OSet [95; 120] 1] in
+  plain_class h 5 = true /\ clean_run (snd t) (init_state (fst t)) ops = true /\
+  map (fun x => o_out (snd x)) (run (snd t) (init_state (fst t)) ops) =
+  [Raise TraitError; Raise AttributeError; Done; Val 5; Raise TraitError; Raise TraitError].
+Proof. vm_compute. repeat split; reflexivity. Qed.
+
+(* ---- C13-v2: a class-body default value for an inherited trait keeps the trait's kind ---- *)
+Theorem class_body_default_keeps_readonly : forall d v, redefault (PReadOnly d) v = PReadOnly v.
+Proof. exact redefault_keeps_readonly. Qed.
+Print Assumptions class_body_default_keeps_readonly.
+
+Theorem class_body_default_keeps_the_validator : forall k d v, redefault (PTyped k d) v = PTyped k v.
+Proof. exact redefault_keeps_validator. Qed.
+Print Assumptions class_body_default_keeps_the_validator.
+
+Theorem redefaulted_readonly_is_never_assignable :
+  forall pt s n d v w,
+    assoc n (s_itd s) = None -> assoc n (s_ctd s) = Some (redefault (PReadOnly d) v) -> Z.eqb v VUndef = false ->
+    o_out (snd (step pt s (OSet n w))) = Raise TraitError.
+Proof. exact redefault_readonly_rejects. Qed.
+Print Assumptions redefaulted_readonly_is_never_assignable.
+
+(* the demo of C13-v2: A.x = ReadOnly, B.x = Int(7), C(A, B): x = 5 *)
+Example class_body_default_nontrivial :
+  let h := [mkClass [([120], PReadOnly VUndef)] [0%nat]; mkClass [([120], PTyped VInt 7)] [0%nat];
+            mkClass [([120], redefault (PReadOnly VUndef) 5)] [3%nat; 4%nat]] in
+  let t := class_tables h 5 in
+  let ops := [OGet [120]; OSet [120] 1; OGet [120]; ODel [120]] in
+  plain_class h 5 = true /\ clean_run (snd t) (init_state (fst t)) ops = true /\
+  map (fun x => o_out (snd x)) (run (snd t) (init_state (fst t)) ops) =
+  [Val 5; Raise TraitError; Val 5; Raise TraitError].
+Proof. vm_compute. repeat split; reflexivity. Qed.
+
+(* ---- C13-v3: names a class owns through a List declaration are definitions for add_class_trait ---- *)
+Theorem owned_name_is_an_existing_definition_for_add_class_trait :
+  forall ct pt m p, ends_us m = false -> amem m ct = true ->
+    add_class1 false (ct, pt) m p = None /\ add_class1 true (ct, pt) m p = Some (ct, pt).
+Proof. exact owned_name_blocks_add_class_trait. Qed.
+Print Assumptions owned_name_is_an_existing_definition_for_add_class_trait.
+
+Theorem list_declaration_owns_its_items_name :
+  forall n, ends_us n = false -> amem (n ++ items_suffix) (fst (own_tables [(n, PList)])) = true.
+Proof. exact list_declaration_owns_items. Qed.
+Print Assumptions list_declaration_owns_its_items_name.
+
+(* the demo of C13-v3 on the model: class 3 plain, class 4(3) declares ab = List: add_class_trait of
+   ab_items on class 3 leaves class 4 alone, on class 4 it raises *)
+Example owned_items_name_nontrivial :
+  let hh := roots ++ [mkClass [] [0%nat]; mkClass [([97; 98], PList)] [3%nat]] in
+  let n := [97; 98] ++ items_suffix in
+  let r1 := add_class hh (tables hh) 3 n (PTyped VInt 7) in
+  snd r1 = Done /\ tabs_nth (fst r1) 4 = tabs_nth (tables hh) 4 /\
+  snd (add_class hh (fst r1) 4 n (PTyped VInt 7)) = Raise TraitError /\
+  assoc n (fst (tabs_nth (fst r1) 4)) = Some (PEvent (Some VNoneOnly)) /\
+  assoc n (fst (tabs_nth (fst r1) 3)) = Some (PTyped VInt 7).
+Proof. vm_compute. repeat split; reflexivity. Qed.
